@@ -40,3 +40,22 @@ Theorem C01_next_calls_model_kernel : forall l1 maxKB nextDist prevDist maxGap c
     rs = map Val (firstn k P) ++ repeat Err (k - length P).
 Proof. exact next_calls_model. Qed.
 Print Assumptions C01_next_calls_model_kernel.
+
+(** bit decoding (Erat::nextPrime and the loop "for (; bits != 0; bits &= bits - 1)" over a 64-bit word of the sieve
+    array): both variants of nextPrime - count-trailing-zeros with bitValues[] and the De Bruijn hash with
+    bruijnBitValues[] (tables and constant from the source) - return low + bitValues[i] for a word whose lowest set
+    bit is i, and the loop yields, in ascending order, low + bitValues[i] for exactly the set bits i;
+    bitValues[i] = 30*(i/8) + bv[i mod 8] *)
+From PS Require Import Gen.Tables Model.Count Model.Decode Proofs.TablesP Proofs.DecodeP.
+Theorem C01_bitValues_ok : forallb (fun i => tbl bitValues i =? 30 * (i / 8) + nth (N.to_nat (i mod 8)) bv 0) (Nseq 64) = true.
+Proof. exact bitValues_ok. Qed.
+Print Assumptions C01_bitValues_ok.
+Theorem C01_nextPrime_variants_agree : forall a i low, lowest a i -> (i < 64)%nat ->
+  nextPrime_ctz a low = low + tbl bitValues (N.of_nat i) /\ nextPrime_bruijn a low = low + tbl bitValues (N.of_nat i).
+Proof. exact nextPrime_variants_agree. Qed.
+Print Assumptions C01_nextPrime_variants_agree.
+Theorem C01_decode_word_spec : forall next, (next = nextPrime_ctz \/ next = nextPrime_bruijn) -> forall fuel a low,
+  a < W64 -> (length (set_bits a) < fuel)%nat ->
+  decode_word fuel next a low = map (fun i => low + tbl bitValues (N.of_nat i)) (set_bits a).
+Proof. exact decode_word_spec. Qed.
+Print Assumptions C01_decode_word_spec.
